@@ -244,7 +244,7 @@ def piggyback(rec, tier, rng):
     from batchie import retrospective as R
     from batchie.data import Screen
 
-    n = 15 if tier == "quick" else 120
+    n = 40 if tier == "quick" else 200
     with kit.Patches() as P:
         invariants.install_screen_init_invariant(rec, P, strict_control=False, want=("C01",))
         for _ in range(n):
@@ -260,6 +260,28 @@ def piggyback(rec, tier, rng):
                 R.unmask_screen(tr2)
                 # merge two plates in place (changes plate_names of tr2's own array), then rebuild from the same arrays
                 pls = R.mask_screen(tr2)
+                if pls.n_plates >= 3 and rng.random() < 0.6:
+                    # merge a view that is NOT exactly one whole plate: part of a plate, or a combination of parts
+                    from batchie.data import Plate as _Plate
+                    a = pls.plates[0]
+                    other_rows = np.flatnonzero(~np.asarray(a.selection_vector))
+                    pick = rng.choice(other_rows, size=int(rng.integers(1, min(4, len(other_rows)) + 1)), replace=False)
+                    selv = np.zeros(pls.size, dtype=bool)
+                    selv[pick] = True
+                    part = _Plate(pls, selv) if rng.random() < 0.5 else pls.subset(selv).combine(pls.subset(np.zeros(pls.size, dtype=bool)))
+                    try:
+                        a.merge(part)
+                        rec.count("merges_with_partial_views")
+                    except ValueError as e:
+                        rec.did_not_return("merge-partial-view", e)
+                    names_now = [str(x) for x in pls.plate_names]
+                    ids_now = [int(x) for x in pls.plate_ids]
+                    dec = {}
+                    okm = True
+                    for n_, i_ in zip(names_now, ids_now):
+                        if dec.setdefault(i_, n_) != n_:
+                            okm = False
+                    rec.check(okm and sorted(set(ids_now)) == list(range(len(set(names_now)))), "C01/plate/ids-not-dense", lambda: "after Plate.merge with a partial view the plate ids %r are not a dense encoding of the plate names %r" % (ids_now[:12], names_now[:12]), None)
                 if pls.n_plates >= 2:
                     a, b = pls.plates[0], pls.plates[-1]
                     a.merge(b)
